@@ -546,3 +546,252 @@ Section sv.
       apply dif_out_spec. by eapply elem_of_list_lookup_2.
   Qed.
 End sv.
+
+
+(* ================================================================================================ *)
+(* 8. sub-circuits (tx.subcircuit / graph.subgraph on a fan-in closed node set; output marks may differ)  *)
+Record sub_of (c' c : circuit) : Prop := {
+  so_nodes : ∀ y i', c' !! y = Some i' → ∃ i, c !! y = Some i ∧ n_ty i' = n_ty i ∧ n_fi i' = n_fi i;
+  so_closed : closed c' }.
+
+Lemma is_free_same i i' : n_ty i' = n_ty i → n_fi i' = n_fi i → is_free i' = is_free i.
+Proof. intros Ht Hf. unfold is_free. by rewrite Ht, Hf. Qed.
+Lemma node_ok_same (v : val) y i i' : n_ty i' = n_ty i → n_fi i' = n_fi i → node_ok v y i → node_ok v y i'.
+Proof. intros Ht Hf. unfold node_ok. rewrite (is_free_same i i' Ht Hf), Ht, Hf. done. Qed.
+Lemma sub_consistent c' c v : sub_of c' c → consistent c v → consistent c' v.
+Proof.
+  intros Hs Hv y i' Hy. destruct (so_nodes _ _ Hs y i' Hy) as (i & Hi & Ht & Hf).
+  eapply node_ok_same; eauto.
+Qed.
+Lemma sub_acyclic c' c : sub_of c' c → acyclic c → acyclic c'.
+Proof.
+  intros Hs [rank Hr]. exists rank. intros y i' f Hy Hf.
+  destruct (so_nodes _ _ Hs y i' Hy) as (i & Hi & Ht & Hfi). rewrite Hfi in Hf. eauto.
+Qed.
+Lemma sub_inputs_only c' c : sub_of c' c → inputs_only c → inputs_only c'.
+Proof.
+  intros Hs Hio y i' Hy Hfree. destruct (so_nodes _ _ Hs y i' Hy) as (i & Hi & Ht & Hf).
+  rewrite Ht. eapply Hio; [done|]. by rewrite <- (is_free_same i i' Ht Hf).
+Qed.
+Lemma sub_dom c' c : sub_of c' c → dom c' ⊆ dom c.
+Proof. intros Hs y [i' Hy]%elem_of_dom. destruct (so_nodes _ _ Hs y i' Hy) as (i & Hi & _). apply elem_of_dom. by exists i. Qed.
+Lemma evalc_sub c' c a x : sub_of c' c → closed c → acyclic c → x ∈ dom c' → evalc c' a x = evalc c a x.
+Proof.
+  intros Hs Hcl Hac Hx. symmetry.
+  apply (evalc_agrees c' a (evalc c a)); [apply Hs|by eapply sub_acyclic| | |done].
+  - eapply sub_consistent; [done|]. by apply evalc_consistent.
+  - intros y Hy. unfold free_nodes in Hy. apply elem_of_dom in Hy as [i' Hi'].
+    apply map_filter_lookup_Some in Hi' as [Hy Hfree].
+    destruct (so_nodes _ _ Hs y i' Hy) as (i & Hi & Ht & Hf).
+    eapply evalc_free; [done|]. by rewrite <- (is_free_same i i' Ht Hf).
+Qed.
+Lemma sub_cut c' c n : sub_of c' c → sub_of (cut c' n) (cut c n).
+Proof.
+  intros Hs. split; [|apply cut_closed, Hs].
+  intros y i' Hy. destruct (decide (y = n)) as [->|Hne].
+  - unfold cut in *. rewrite lookup_alter in Hy |- *.
+    destruct (c' !! n) as [i0|] eqn:E; [|done]. simpl in Hy. injection Hy as <-.
+    destruct (so_nodes _ _ Hs n i0 E) as (i & -> & _). simpl. eauto.
+  - rewrite cut_lookup_ne in Hy |- * by done. by apply Hs.
+Qed.
+Lemma inverted_sub c' c n a x : sub_of c' c → closed c → acyclic c → n ∈ dom c' → x ∈ dom c' →
+  inverted c' n a x = inverted c n a x.
+Proof.
+  intros Hs Hcl Hac Hn Hx. unfold inverted. rewrite (evalc_sub c' c a n) by done.
+  apply evalc_sub; [by apply sub_cut|by apply cut_closed|by apply cut_acyclic|by rewrite cut_dom].
+Qed.
+Lemma sens_at_sub c' c n E a : sub_of c' c → closed c → acyclic c → n ∈ dom c' → (∀ e, e ∈ E → e ∈ dom c') →
+  sens_at c' n E a ↔ sens_at c n E a.
+Proof.
+  intros Hs Hcl Hac Hn HE. unfold sens_at. split; intros (e & He & Hne); exists e; (split; [done|]).
+  - rewrite <- (evalc_sub c' c), <- (inverted_sub c' c) by auto. done.
+  - rewrite (evalc_sub c' c), (inverted_sub c' c) by auto. done.
+Qed.
+Lemma flipsb_sub c' c n s a : sub_of c' c → closed c → acyclic c → n ∈ dom c' → flipsb c' n s a = flipsb c n s a.
+Proof. intros. unfold flipsb. by rewrite !(evalc_sub c' c). Qed.
+Lemma count_sub c' c n sp a : sub_of c' c → closed c → acyclic c → n ∈ dom c' → count c' n sp a = count c n sp a.
+Proof.
+  intros. unfold count. f_equal. apply list_filter_iff. intros s. by rewrite (flipsb_sub c' c).
+Qed.
+
+(* the induced sub-graph on a fan-in closed node set is such a sub-circuit *)
+Lemma induced_sub_of c (K : gset string) : closed c →
+  (∀ y i f, c !! y = Some i → y ∈ K → f ∈ n_fi i → f ∈ K) → sub_of (induced c K) c.
+Proof.
+  intros Hcl HK. unfold induced. split.
+  - intros y i' Hy. rewrite lookup_fmap in Hy. destruct (filter _ c !! y) as [i|] eqn:E; [|done].
+    apply map_filter_lookup_Some in E as [Hc Hin]. simpl in *. injection Hy as <-. exists i. split; [done|]. split; [done|].
+    simpl. apply set_eq. intros f. rewrite elem_of_intersection. split; [tauto|]. intros Hf. split; [done|]. eauto.
+  - intros y i' f Hy Hf. rewrite lookup_fmap in Hy. destruct (filter _ c !! y) as [i|] eqn:E; [|done].
+    apply map_filter_lookup_Some in E as [Hc Hin]. simpl in *. injection Hy as <-. simpl in Hf.
+    apply elem_of_intersection in Hf as [Hf HfK]. apply elem_of_dom.
+    assert (is_Some (c !! f)) as [i2 Hi2] by (apply elem_of_dom; eapply Hcl; eauto).
+    exists (upd_fi (λ fi, fi ∩ K) i2). rewrite lookup_fmap. rewrite (map_filter_lookup_Some_2 _ _ _ i2); done.
+Qed.
+
+
+(* ================================================================================================ *)
+(* 9. the definitions only look at the startpoint values; valuation-of-the-startpoints form of the specs  *)
+Lemma evalc_free_ext c a a' : closed c → acyclic c → (∀ x, x ∈ free_nodes c → a x = a' x) →
+  ∀ n, n ∈ dom c → evalc c a n = evalc c a' n.
+Proof.
+  intros Hcl Hac Hf n Hn.
+  apply (evalc_agrees c a' (evalc c a)); try done; [by apply evalc_consistent|].
+  intros x Hx. rewrite <- (Hf x Hx). unfold free_nodes in Hx. apply elem_of_dom in Hx as [i Hi].
+  apply map_filter_lookup_Some in Hi as [Hi Hfr]. by eapply evalc_free.
+Qed.
+Lemma free_nodes_cut c n : n ∈ dom c → free_nodes (cut c n) = free_nodes c ∪ {[n]}.
+Proof.
+  intros [i0 Hi0]%elem_of_dom. apply set_eq. intros x. unfold free_nodes.
+  rewrite elem_of_union, elem_of_singleton, !elem_of_dom. destruct (decide (x = n)) as [->|Hne].
+  - split; [by right|]. intros _. exists (mk_node Input (n_out i0) ∅). apply map_filter_lookup_Some.
+    split; [by apply cut_lookup|done].
+  - split.
+    + intros [i Hi]. left. exists i. apply map_filter_lookup_Some in Hi as [Hi Hf]. rewrite cut_lookup_ne in Hi by done.
+      by apply map_filter_lookup_Some.
+    + intros [[i Hi]|?]; [|done]. exists i. apply map_filter_lookup_Some in Hi as [Hi Hf].
+      apply map_filter_lookup_Some. by rewrite cut_lookup_ne.
+Qed.
+Lemma sens_at_ext c n E a a' : closed c → acyclic c → n ∈ dom c → (∀ e, e ∈ E → e ∈ dom c) →
+  (∀ x, x ∈ free_nodes c → a x = a' x) → sens_at c n E a ↔ sens_at c n E a'.
+Proof.
+  intros Hcl Hac Hn HE Hf.
+  assert (Hev : ∀ x, x ∈ dom c → evalc c a x = evalc c a' x) by (by apply evalc_free_ext).
+  assert (Hinv : ∀ x, x ∈ dom c → inverted c n a x = inverted c n a' x).
+  { intros x Hx. unfold inverted. apply evalc_free_ext; [by apply cut_closed|by apply cut_acyclic| |by rewrite cut_dom].
+    intros y Hy. rewrite free_nodes_cut in Hy by done. unfold setv. case_bool_decide; [by rewrite Hev|].
+    apply Hf. set_solver. }
+  unfold sens_at. split; intros (e & He & Hne); exists e; (split; [done|]).
+  - rewrite <- Hev, <- Hinv by auto. done.
+  - rewrite Hev, Hinv by auto. done.
+Qed.
+
+Lemma flipsb_true c n s ρ : flipsb c n s ρ = true ↔ flips c n s ρ.
+Proof. unfold flipsb, flips. destruct (evalc c ρ n), (evalc c (flipv ρ s) n); simpl; split; congruence. Qed.
+Lemma cut_input c s i : c !! s = Some i → n_ty i = Input → n_fi i = ∅ → cut c s = c.
+Proof.
+  intros Hs Ht Hf. unfold cut. apply map_eq. intros y. destruct (decide (y = s)) as [->|Hne].
+  - rewrite lookup_alter, Hs. simpl. f_equal. destruct i; simpl in *; by subst.
+  - by rewrite lookup_alter_ne.
+Qed.
+(* for a primary input s, "inverting node s changes n" is "flipping startpoint s flips n": this is why influence may use the
+   sensitization circuit of (s, endpoint n) *)
+Lemma sens_at_input c s n ρ i : c !! s = Some i → n_ty i = Input → n_fi i = ∅ → sens_at c s [n] ρ ↔ flips c n s ρ.
+Proof.
+  intros Hs Ht Hf. unfold sens_at, flips, inverted. rewrite (cut_input c s i) by done.
+  assert (Hfree : is_free i = true) by (unfold is_free; by rewrite Ht).
+  rewrite (evalc_free c ρ s i Hs Hfree).
+  assert (He : ∀ e, evalc c (setv ρ s (negb (ρ s))) e = evalc c (flipv ρ s) e).
+  { intros e. unfold evalc. apply eval_ext. intros x. unfold setv, flipv. by case_bool_decide. }
+  split.
+  - intros (e & ->%elem_of_list_singleton & H). by rewrite He in H.
+  - intros H. exists n. split; [by apply elem_of_list_singleton|]. by rewrite He.
+Qed.
+(* a node that is a primary input has sensitivity 1 (props.sensitivity returns 1 without building anything) *)
+Lemma sensitivity_input c n i : c !! n = Some i → n_ty i = Input → is_sensitivity c n [n] 1.
+Proof.
+  intros Hn Ht. assert (Hfree : is_free i = true) by (unfold is_free; by rewrite Ht).
+  assert (Hc : ∀ ρ, count c n [n] ρ = 1).
+  { intros ρ. unfold count. rewrite filter_cons, filter_nil. rewrite decide_True; [done|].
+    apply flipsb_true. unfold flips. rewrite !(evalc_free c _ n i Hn Hfree). unfold flipv.
+    rewrite bool_decide_eq_true_2 by done. by destruct (ρ n). }
+  split; [exists (λ _, false); apply Hc|]. intros ρ. by rewrite Hc.
+Qed.
+
+(* ================================================================================================ *)
+(* 10. props.influence / avg_sensitivity / sensitize relative to exact model counting and a sound+complete solver *)
+(* exact model counting projected on the startpoints (sat.model_count blocks on the startpoints only) *)
+Definition mc_exact (mc : circuit → list (string * bool) → nat) : Prop :=
+  ∀ T asm (l : list string) (P : val → bool), NoDup l → list_to_set l = startpoints T →
+    (∀ ρ, P ρ = true ↔ ∃ v, consistent T v ∧ (∀ s, s ∈ l → v s = ρ s) ∧ Forall (λ p : string * bool, v p.1 = p.2) asm) →
+    mc T asm = length (filter (λ ρ, P ρ = true) (all_vals l)).
+(* what the props functions need from a sensitization circuit T for node x and endpoints E of c *)
+Record sens_spec (c : circuit) (x : string) (E : list string) (sp : list string) (T : circuit) : Prop := {
+  sp_start : list_to_set sp = startpoints T;
+  sp_ext : ∀ ρ : val, ∃ v, consistent T v ∧ ∀ s, s ∈ sp → v s = ρ s;
+  sp_sat : ∀ (ρ v : val), consistent T v → (∀ s, s ∈ sp → v s = ρ s) → (v "sat" = true ↔ sens_at c x E ρ) }.
+
+Theorem influence_spec mc c n sp s i T : mc_exact mc → NoDup sp →
+  c !! s = Some i → n_ty i = Input → n_fi i = ∅ → sens_spec c s [n] sp T →
+  frac (mc T [("sat", true)]) (length sp) = influence_def c n sp s.
+Proof.
+  intros Hmc Hnd Hs Ht Hf Hsp. unfold influence_def. f_equal.
+  apply (Hmc T _ sp (flipsb c n s) Hnd (sp_start _ _ _ _ _ Hsp)). intros ρ.
+  rewrite flipsb_true, <- (sens_at_input c s n ρ i Hs Ht Hf). split.
+  - intros Hsens. destruct (sp_ext _ _ _ _ _ Hsp ρ) as (v & Hv & Hag). exists v. split; [done|]. split; [done|].
+    constructor; [|done]. simpl. by apply (sp_sat _ _ _ _ _ Hsp ρ v).
+  - intros (v & Hv & Hag & Hasm). apply Forall_cons in Hasm as [Hsat _]. simpl in Hsat.
+    by apply (sp_sat _ _ _ _ _ Hsp ρ v).
+Qed.
+
+Lemma infl_fold (f : string → res Circuit) (g : Circuit → Q) l0 out :
+  foldr (λ s acc, rbind acc (λ l, rbind (f s) (λ T, Ok ((s, g T) :: l)))) (Ok []) l0 = Ok out →
+  Forall2 (λ s p, p.1 = s ∧ ∃ T, f s = Ok T ∧ p.2 = g T) l0 out.
+Proof.
+  revert out. induction l0 as [|s l0 IH]; intros out; simpl.
+  - intros [= <-]. constructor.
+  - destruct (foldr _ _ l0) as [l| | |] eqn:E; simpl; try done.
+    destruct (f s) as [T| | |] eqn:Ef; simpl; try done. intros [= <-].
+    constructor; [|by apply IH]. simpl. eauto.
+Qed.
+(* the model of props.influence returns, for every startpoint of the cone, the fraction of its definition *)
+Theorem influence_model_spec mc C n out :
+  mc_exact mc →
+  (∀ s T, s ∈ cone_startpoints (c_g C) n → sensitization_transform C s (Some [n]) = Ok T →
+     (∃ i, c_g C !! s = Some i ∧ n_ty i = Input ∧ n_fi i = ∅) ∧
+     sens_spec (c_g C) s [n] (elements (cone_startpoints (c_g C) n)) (c_g T)) →
+  influence mc C n = Ok out →
+  out = (λ s, (s, influence_def (c_g C) n (elements (cone_startpoints (c_g C) n)) s)) <$> elements (cone_startpoints (c_g C) n).
+Proof.
+  intros Hmc Hsp. unfold influence. case_bool_decide; simpl; [|done]. intros Hf.
+  apply infl_fold in Hf.
+  assert (Haux : ∀ l0 out, (∀ s, s ∈ l0 → s ∈ cone_startpoints (c_g C) n) →
+     Forall2 (λ s (p : string * Q), p.1 = s ∧ ∃ T, sensitization_transform C s (Some [n]) = Ok T ∧
+        p.2 = frac (mc (c_g T) [("sat", true)]) (size (cone_startpoints (c_g C) n))) l0 out →
+     out = (λ s, (s, influence_def (c_g C) n (elements (cone_startpoints (c_g C) n)) s)) <$> l0).
+  { clear Hf out. intros l0 out Hall HF. induction HF as [|s p l0 out' [Hp1 (T & HT & Hp2)] Hrest IH]; [done|].
+    simpl. f_equal.
+    - destruct p as [p1 p2]. simpl in *. subst p1. f_equal. rewrite Hp2.
+      destruct (Hsp s T (Hall s ltac:(left)) HT) as [(i & Hi & Ht & Hfi) Hspec].
+      change (size (cone_startpoints (c_g C) n)) with (length (elements (cone_startpoints (c_g C) n))).
+      eapply influence_spec; eauto. apply NoDup_elements.
+    - apply IH. intros s' Hs'. apply Hall. by right. }
+  apply Haux; [|done]. intros s. apply elem_of_elements.
+Qed.
+
+(* avg_sensitivity is the sum of the influences *)
+Theorem avg_sensitivity_model_spec mc C n a :
+  mc_exact mc →
+  (∀ s T, s ∈ cone_startpoints (c_g C) n → sensitization_transform C s (Some [n]) = Ok T →
+     (∃ i, c_g C !! s = Some i ∧ n_ty i = Input ∧ n_fi i = ∅) ∧
+     sens_spec (c_g C) s [n] (elements (cone_startpoints (c_g C) n)) (c_g T)) →
+  avg_sensitivity mc C n = Ok a →
+  a = avg_sensitivity_def (c_g C) n (elements (cone_startpoints (c_g C) n)).
+Proof.
+  intros Hmc Hsp. unfold avg_sensitivity, rmap. destruct (influence mc C n) as [l| | |] eqn:E; simpl; try done.
+  intros [= <-]. rewrite (influence_model_spec mc C n l Hmc Hsp E). unfold avg_sensitivity_def. f_equal.
+  rewrite <- list_fmap_compose. done.
+Qed.
+
+(* props.sensitize relative to a sound and complete solver *)
+Theorem sensitize_model_spec (solve : circuit → list (string * bool) → option val) C n E sp T r :
+  (∀ g asm v, solve g asm = Some v → consistent g v ∧ Forall (λ p : string * bool, v p.1 = p.2) asm) →
+  (∀ g asm, solve g asm = None → ¬ ∃ v, consistent g v ∧ Forall (λ p : string * bool, v p.1 = p.2) asm) →
+  sensitization_transform C n None = Ok T → sens_spec (c_g C) n E sp (c_g T) →
+  sensitize solve C n = Ok r →
+  match r with
+  | Some μ => (fst <$> μ) = elements (startpoints (c_g T)) ∧ ∃ ρ : val, Forall (λ p : string * bool, ρ p.1 = p.2) μ ∧ sens_at (c_g C) n E ρ
+  | None => ∀ ρ, ¬ sens_at (c_g C) n E ρ
+  end.
+Proof.
+  intros Hsound Hcomp HT Hsp. unfold sensitize. rewrite HT. simpl.
+  destruct (solve (c_g T) [("sat", true)]) as [v|] eqn:E1; intros [= <-].
+  - destruct (Hsound _ _ _ E1) as [Hv Hasm]. apply Forall_cons in Hasm as [Hsat _]. simpl in Hsat. split.
+    + rewrite <- list_fmap_compose. simpl. by rewrite list_fmap_id.
+    + exists v. split.
+      * apply Forall_fmap. apply Forall_forall. intros x _. done.
+      * by apply (sp_sat _ _ _ _ _ Hsp v v).
+  - intros ρ Hsens. apply (Hcomp _ _ E1).
+    destruct (sp_ext _ _ _ _ _ Hsp ρ) as (v & Hv & Hag). exists v. split; [done|].
+    constructor; [|done]. simpl. by apply (sp_sat _ _ _ _ _ Hsp ρ v).
+Qed.
